@@ -9,3 +9,5 @@ EXPLANATION = (
 UNDECIDED = "no tree is built for a concrete (n, b); the proof's reliance on itertools::chunks and Vec order is trusted."
 ASSUMPTIONS = [K.A_BYTEORDER, K.A_BYTES, K.A_PRED, K.A_TABLE, "itertools chunks(b): every chunk but the last has exactly b elements"]
 OBLIGATIONS = K.SPANS + [K.OVERLAPS, K.INDEX_PAIRS] + [o for o in K.WRITER_LAYOUT if o.id in ("C09-L3", "C09-L4", "C09-L4c")] + K.CIR_READER
+OBLIGATIONS = OBLIGATIONS + [K.SEARCH_ORDER, K.RTREE_LOOP]
+OBLIGATIONS = OBLIGATIONS + [K.TREE_OFFSETS]
